@@ -121,7 +121,9 @@ class SMCSampler(MCMCSampler):
         """
         if not self.adaptive:
             beta += beta_step
-            if beta >= 1.0:
+            # Accumulating 1 / n_steps in floating point can leave the last
+            # step a few ulps short of 1, which would add an extra iteration
+            if beta >= 1.0 or (1.0 - beta) < 0.5 * beta_step:
                 beta = 1.0
         else:
             beta_prev = beta
